@@ -210,6 +210,19 @@ func (p *Pool) Release(ip net.IP) {
 	}
 }
 
+// ReleaseAllocation gives back the address allocated to mac, if there is one
+// (an address reserved by DISCOVER that never became a lease).
+func (p *Pool) ReleaseAllocation(mac net.HardwareAddr) {
+	p.mu.Lock()
+	defer p.mu.Unlock()
+
+	macStr := mac.String()
+	if ip, ok := p.allocated[macStr]; ok {
+		delete(p.allocated, macStr)
+		p.available = append(p.available, ip)
+	}
+}
+
 // Contains checks if an IP is within this pool
 func (p *Pool) Contains(ip net.IP) bool {
 	return p.Network.Contains(ip)
